@@ -69,7 +69,9 @@ class PairRun(object):
     # -- history helpers
     def signals(self, side, member):
         path = self.ends[side].path
-        return [ev for ev in self.sim.hist.events if ev['kind'] == 'signal' and ev['path'] == path and ev['member'] == member]
+        # (a signal emitted on an object that is no longer exported reaches nobody: dbus-python sends one message per location)
+        return [ev for ev in self.sim.hist.events if ev['kind'] == 'signal' and ev['path'] == path and ev['member'] == member
+                and ev.get('exported', True)]
 
     def wire(self, side):
         ''' Decode what ``side`` wrote.  :return: (list of (msg, end offset, event_no of the write that completed it), status, raw) '''
